@@ -3,7 +3,7 @@ use cao_lang::prelude::*;
 use serde_json::{json, Value as J};
 use std::hash::{Hash, Hasher};
 
-pub fn build_term(vm: &mut Vm<()>, t: &J) -> Value {
+pub fn build_term<A>(vm: &mut Vm<A>, t: &J) -> Value {
     match t["t"].as_str().unwrap() {
         "nil" => Value::Nil,
         "int" => match t["s"].as_str().unwrap_or("") {
